@@ -1,6 +1,7 @@
 #!/bin/sh
-# runs every registered check's quick command on the current tree (evidence is rewritten)
-cd /verif
+# runs every registered check's quick (or $1) command on the current tree (evidence is rewritten)
+V=$(cd "$(dirname "$0")/.." && pwd)
+cd "$V"
 for p in $(python3 -c "import json;print(' '.join(sorted(json.load(open('checks/registry.json'))['checks'])))"); do
   s=$(date +%s); out=$(./bin/check $p --tier ${1:-quick} 2>&1 | grep -v '^note:' | tail -3 | tr '\n' '|'); e=$(date +%s)
   echo "$p $((e-s))s $out"
